@@ -714,6 +714,8 @@ class Engine:
         return 'L+%d' % (node.lineno - self.fn.lineno)
 
     def do_yield_from(self, node, st):
+        if st.out_n is None:
+            raise Unsupported('yield from in a function whose contract does not describe a generator')
         outs = []
         for st2, it in self.eval(node.value, st):
             outs.extend(self.run_loop(node, st2, it, target=None, body=None, yield_each=True))
